@@ -151,7 +151,9 @@ impl World for ListenWorld {
     fn observe(&mut self, st: &St) {
         // a connection that has just been served to completion is progress: the idle period is
         // judged from here on (ticks that passed while it was still being served do not count)
-        let fin = self.accepted.iter().filter(|c| finished(st, **c)).count();
+        // so is the worker marking itself idle afterwards: until then the loop rightly sees a connection in
+        // service and restarts its countdown, whatever time passes in between
+        let fin = self.accepted.iter().filter(|c| finished(st, **c)).count() + 1000 * st.threads.iter().filter(|t| t.holding.is_some()).count();
         if fin != self.finished_seen {
             self.finished_seen = fin;
             self.ticks_since_progress = 0;
